@@ -39,6 +39,22 @@ Specifications
                            termination; enumerates every truncation, single-field edit and single-bit flip of six
                            small valid files with class (ok / tolerated / malformed) and expected exit statuses.
   spec/HexReader           Intel-HEX reader of das.c; truncations and single character substitutions.
+  spec/DasmFlow_Gen        (G) fourth dimension, for the utility DASL: the control-flow SHAPE of the memory image.  The
+                           worklist of das.c main (spec/Dasm.tla) ends only because a successor inside an already
+                           disassembled area is not queued again (AddressInChunk); which addresses that test sees depends
+                           on where a branch sits in its area and where its target lies relative to the areas marked so
+                           far.  Images = K <= 4 routines `<0..1 NOPs> <branch | jump | call> <return> <gap>`; target =
+                           first address / flow instruction / return / address behind the return of its own or another
+                           routine (self loop at an entry address, mutual branches between entry points, loop back to
+                           the first instruction, forward and backward rings, stars, targets in the middle or at the
+                           last address of an area, behind an area, outside the image); areas touching or apart; 1..4
+                           entry addresses given directly or through a vector table in the image; one form per class of
+                           target operand (relative / in-page / absolute; thorough: every form with a target) of the
+                           three DASL targets (Isa6800 for 6800/6802, Isa4004, spec/Isa87Flow.tla = control-flow subset
+                           of the TLCS-870 for 87C00).  TLC runs the worklist on every image and prints the expectation:
+                           exit 0 after `steps` iterations (checked: steps <= 2 * image size + 2), the listed areas, and
+                           the set of enqueue decision classes <flow class, instruction at area start, relation of the
+                           target to the marked areas, same area, already queued> the run goes through.
 
 Replay (all under the sanitizer build, stdin closed, time and output-size limits)
   asl   generic cases rendered for rotating CPU dialects; data / reserve / fill / DUP / [n] cases for every such
@@ -49,6 +65,11 @@ Replay (all under the sanitizer build, stdin closed, time and output-size limits
         golden sources at a seed-chosen line.
   tools every generated code file x {plist, pbind, p2bin, p2hex, alink}; hex files x dasl -hexfile, the same bytes
         as -binfile, and binfile option classes.
+  dasl  control-flow shape images (DasmFlow_Gen) x {-binfile, -hexfile} x CPU names of the family; quick: a seed-chosen
+        sample that contains every decision class, every (form, pre, target position, K), every target pattern and every
+        (K, entries, entry mode, gap) combination at least once (~500 images); thorough: 6000 of ~65000 images.  Verdict: dasl ends
+        in time, without signal / sanitizer report, with a documented status; exit status 0 and the listed areas (= the
+        areas the Dasm worklist marks) are SPEC-DRIFT only.
 Verdict-bearing: signal / sanitizer report / timeout or runaway output (unless the model says the input describes
   >= 2^31 iterations, a WHILE or a self-recursive macro) / exit status outside the documented set / a malformed
   code file accepted with status 0 or 1.  A violation is reported only if a second run repeats it.
@@ -57,8 +78,11 @@ Not judged (SPEC-DRIFT at most): which statements are errors (finer `allowed` se
 
 Bounds: one varied argument per statement (+ all-arguments variants), <= 600 arguments, one level of context,
   histories of <= 4 statements within ONE family (no cross-family interleavings), 5 stack / 3 code page names,
-  files <= ~100 bytes; quick runs a stratified seed-chosen sample (every op x context at least once).
-NOT covered: raw byte / grammar-blind fuzzing, CPU instruction operands, options of asl other than -q and -L,
+  files <= ~100 bytes; quick runs a stratified seed-chosen sample (every op x context at least once); dasl images of
+  <= 4 routines with ONE flow instruction each (free combinations for <= 2 routines in the thorough tier, else uniform
+  patterns), targets on instruction starts only, 2-byte vectors, load addresses 0 and 256.
+NOT covered: dasl images whose control flow enters the middle of an instruction or a vector cell, CALLV / CALLP of the
+  87C00 (targets in the fixed top page), -symbol; raw byte / grammar-blind fuzzing, CPU instruction operands, options of asl other than -q and -L,
   I/O errors, memory exhaustion, inputs longer than the bounds; absence of out-of-bounds accesses is only as good
   as ASan/UBSan detection on the explored inputs.
 
@@ -70,6 +94,11 @@ Mutations tried (patches in selftest/C03-m*.diff, applied to a scratch copy, `VE
   m5 natpseudo.c DecodeFx: SetMaxCodeLen(Size) instead of (Size << Shift)            -> VIOLATION (`fw 129,1` on COP410)
   m6 asmpars.c PushSymbol: the two statements of the list walk swapped (cyclic list)  -> VIOLATION (hang on the 4th
      PUSHV, use after free in ClearStacks); the same swap in NegHist.tla Walk()        -> TLC: StackListOK violated
+  m7 chunks.c AddressInChunk: lower bound `Start <= Address` -> `Address > Start` (the first address of an area counts
+     as not yet disassembled; `nmi: bra nmi` or `swi: bra irq / irq: bra swi` re-queue each other forever; the 201 golden
+     tests and all other phases of this check pass)                                    -> VIOLATION x8 (dasl timeout on the
+     shape images, every CPU name x load mode); missed before the DasmFlow_Gen dimension existed: the only dasl inputs were
+     the HexReader fault files, whose 6 data bytes contain no branch back to an area start.
   spec mutant: Pseudo() accepts a closer without opener silently                     -> NegSpace_MC: ClosersNeverUnderflow violated
   corrupted trace: `std` changed by an ALIGN event / stray ENDSTRUCT without error   -> NegSpace_Trace prints both as BAD
 History: on the pinned tree the exploration found 16 defect families (ALIGN 0, empty symbol name, > 3 function
@@ -86,7 +115,7 @@ import json
 import os
 import threading
 
-from vlib import aslrun, build, c03lib, c03run, sanbuild, tlc
+from vlib import aslrun, build, c03flow, c03lib, c03run, sanbuild, tlc
 from vlib.common import CheckError, Phase, log, rng, NCPU
 from vlib.report import Report
 
@@ -99,9 +128,9 @@ MSGS = ["tools.msg", "cmdarg.msg", "ioerrs.msg"]
 
 SIZES = {  # tier -> sample sizes
     "quick": dict(generic=6000, data=900, data_cpus=18, plant=100, hist=1700, toolruns=650, hex=120, trace=1500,
-                  t_asl=12, t_tool=1.5),
+                  flow=520, t_asl=12, t_tool=1.5),
     "thorough": dict(generic=50000, data=20000, data_cpus=10 ** 9, plant=3000, hist=20000, toolruns=10 ** 9, hex=10 ** 9,
-                     trace=20000, t_asl=30, t_tool=3),
+                     trace=20000, flow=6000, t_asl=30, t_tool=3),
 }
 
 
@@ -289,6 +318,19 @@ def main(tier):
     th = threading.Thread(target=run_mc)
     th.start()
 
+    # ---- (G) control-flow shape images for dasl (DasmFlow_Gen), generated in the background ---------------
+    flow_out = {}
+
+    def run_flow():
+        try:
+            for isa in c03flow.ISAS:
+                flow_out[isa] = tlc.run("DasmFlow_Gen", "DasmFlow_Gen%s_%s.cfg" % ("Q" if tier == "quick" else "", isa),
+                                        workers=1, timeout=3000, mem="4g")
+        except Exception as ex:     # reported by the main thread
+            flow_out["err"] = ex
+    tf = threading.Thread(target=run_flow)
+    tf.start()
+
     # ---- (G) generation -----------------------------------------------------------------------------------
     with Phase("TLC case generation"):
         gen = tlc.must(tlc.run("NegSpace_Gen", "NegSpace_GenQ.cfg" if tier == "quick" else "NegSpace_Gen.cfg",
@@ -399,6 +441,37 @@ def main(tier):
     main_cpus = [c.upper() for c in c03lib.DIALECTS]
     with Phase("probe data pseudo ops on %d CPUs" % len(cpus)):
         acc = c03lib.probe_ops(hook, cpus)
+    # EXPECT around a FATAL condition (found by hand while strengthening C02: `expect 10001` around an INCLUDE of a
+    # missing file made asl go on with a NULL file and loop for ever; repaired in /repo): a fatal error ends the run
+    # with status 3 whatever an EXPECT block announces
+    fat = [("include \"nosuchfile.inc\"", 10001), ("binclude \"nosuchfile.bin\"", 10001), ("fatal \"stop\"", 10009),
+           ("include \"nosuchfile.inc\"", 10009)]
+    fjobs = [{"files": {"a.asm": "\tcpu z80\n\texpect %d\n\t%s\n\tendexpect\n\tdb 1\n" % (num, st)},
+              "cmd": ["asl", "-q", "a.asm"], "timeout": 20} for (st, num) in fat]
+    for (st, num), fr in zip(fat, c03run.run_jobs(hook, fjobs)):
+        rep.evaluated()
+        fw = c03run.failure(fr, (2, 3))
+        if fw:
+            rep.violation("asl does not end normally (%s) on a fatal condition inside EXPECT %d: `%s`" % (fw, num, st),
+                          case={"stmt": st, "expect": num}, files={"a.asm": fjobs[fat.index((st, num))]["files"]["a.asm"]},
+                          key={"kind": "expect-fatal"})
+    for (pcpu, psrc, pres) in c03lib.PROBE_ABNORMAL:
+        # bisect to the first line that does it alone (cpu line + one statement)
+        plines = psrc.split("\n")
+        culprit = None
+        for ln in plines[1:]:
+            if not ln.strip():
+                continue
+            r1 = c03run.run_jobs(hook, [{"files": {"a.asm": plines[0] + "\n" + ln + "\n"},
+                                         "cmd": ["asl", "-q", "a.asm"], "timeout": 20}])[0]
+            if r1["timeout"] or r1["sig"] is not None or r1["san"]:
+                culprit = (ln, r1)
+                break
+        what = c03run.failure(culprit[1] if culprit else pres, (0, 2, 3)) or "abnormal end"
+        rep.violation("asl ends abnormally (%s) on a plain data statement for CPU %s: `%s`"
+                      % (what, pcpu, (culprit[0].strip() if culprit else "probe source")), case={"cpu": pcpu},
+                      files={"a.asm": (plines[0] + "\n" + culprit[0] + "\n") if culprit else psrc},
+                      key={"kind": "data-probe", "cpu": pcpu, "stmt": culprit[0].split()[0].upper() if culprit else "?"})
     # CPUs that accept exactly the same statements in every role share one implementation family for the quick tier
     sigs = {}
     for cpu in sorted(acc):
@@ -589,6 +662,58 @@ def main(tier):
     for k in sorted(ndasl):
         rep.drift("dasl -hexfile: %d files the HexReader model would %s end with exit %s" % (ndasl[k], k[0], k[1]))
 
+    # ---- dasl: control-flow shapes of the image (DasmFlow_Gen) ---------------------------------------------------
+    tf.join()
+    if "err" in flow_out:
+        raise CheckError("DasmFlow_Gen could not be run: %s" % flow_out["err"])
+    images = {}
+    for isa in c03flow.ISAS:
+        fr = tlc.must(flow_out[isa], "DasmFlow_Gen(%s)" % isa)
+        if fr.violation:
+            raise CheckError("DasmFlow_Gen(%s): the worklist design violates its invariants: %s" % (isa, fr.violation[:500]))
+        rep.model("DasmFlow_Gen(%s)" % isa, fr)
+        for (t, x) in fr.printed:
+            if t == "OUT":
+                images.setdefault(c03flow.ident(x), x)
+    if not images:
+        raise CheckError("DasmFlow_Gen printed no images")
+    fsample = c03flow.pick(images.values(), sz["flow"], rng("c03/flow"))
+    fj, fm = [], []
+    for i, x in enumerate(fsample):
+        for cpu in (x["cpus"] if tier != "quick" else [x["cpus"][i % len(x["cpus"])]]):
+            for load in ("bin", "hex"):
+                fj.append(c03flow.job(x, cpu, load, sz["t_tool"]))
+                fm.append((x, cpu, load))
+    with Phase("dasl control-flow shapes: %d images, %d runs" % (len(fsample), len(fj))):
+        fres = c03run.run_jobs(bld, fj)
+    fdrift, fclasses = {}, set()
+    for (x, cpu, load), j, res in zip(fm, fj, fres):
+        rep.evaluated()
+        rep.distinct(("dasl-flow", cpu, load) + c03flow.ident(x),
+                     any(c[2] in ("self", "start", "inside", "last") for c in x["classes"]))
+        fclasses.update((x["isa"],) + tuple(c) for c in x["classes"])
+        fail = c03run.failure(res, tool_doc | {4})
+        if fail:
+            key = {"tool": "dasl", "mode": "flow-" + load, "fault": "flow", "verdict": "terminates", "fail": fail,
+                   "where": c03run.where(res), "opt": None, "cpu": cpu, "why": "flow/%s/%s" % (cpu, load),
+                   "steps": x["steps"]}
+            conf.add("dasl -cpu %s -%sfile on a valid %d-routine image %s (<pre, form, target routine, target position>; "
+                     "%s entries %s, gap %d): %s %s; the Dasm worklist ends after %d iterations with exit %s"
+                     % (cpu, load, x["k"], x["shape"], x["mode"], sorted(x["entries"]), x["gap"], fail, res["san"] or "",
+                        x["steps"], x["exit"]), key, j, x, dict(j["files"]))
+        elif res["rc"] not in x["exit"]:
+            dk = (cpu, "exit %s, model %s" % (res["rc"], x["exit"]))
+            fdrift.setdefault(dk, []).append(x["shape"])
+        elif c03flow.listed(res["out"]) != c03flow.expected(x):
+            dk = (cpu, "listed areas differ from the areas the Dasm worklist marks")
+            fdrift.setdefault(dk, []).append((x["shape"], c03flow.listed(res["out"]), c03flow.expected(x)))
+    for dk in sorted(fdrift):
+        rep.drift("dasl -cpu %s on control-flow shape images: %s (%d runs, e.g. %s)" % (dk[0], dk[1], len(fdrift[dk]),
+                                                                                       fdrift[dk][0]))
+    rep.part("dasl_flow", images_generated=len(images), images_run=len(fsample), runs=len(fj),
+             decision_classes=len(fclasses), area_or_exit_mismatches=sum(len(v) for v in fdrift.values()))
+    rep.sample({"flow_image": fsample[len(fsample) // 2]})
+
     # ---- confirmation of unknown candidates -------------------------------------------------------------------
     with Phase("confirm candidates"):
         conf.flush(lambda key: asl_doc if key.get("tool") == "asl" else (tool_doc | ({4} if key.get("tool") == "dasl" else set())))
@@ -627,6 +752,8 @@ def main(tier):
              "varied argument x context), seed-stratified sample in the quick tier, rendered for rotating CPU dialects, "
              "for every data pseudo op the probed CPUs accept, and planted into golden sources; code files = every "
              "truncation / field edit / bit flip TLC enumerates over the base files x 5 tools; hex files x dasl; "
+             "dasl on the control-flow shape images of DasmFlow_Gen (every enqueue decision class, form, pattern and "
+             "entry combination at least once, each as -binfile and -hexfile); "
              "distinct = distinct rendered input; all counted inputs contain at least one erroneous or boundary statement "
              "or fault", exhaustive=False)
 
